@@ -6,6 +6,7 @@ from the real implementation.  Floats travel as 16-hex-digit bit patterns; NaN p
 import Micm.Model.Builder
 import Micm.Model.Dense
 import Micm.Model.RateConst
+import Micm.Model.State
 import Micm.Model.FlatKernels
 import Micm.Model.History
 import Micm.Model.FlatKernels2
@@ -447,14 +448,21 @@ def ratesCase : P String := do
 
 structure HState where
   owner : Nat := 0       -- which of the two solvers the State belongs to
-  Y : Mat Float
+  sm : MState Float      -- `variables_`, `custom_rate_parameters_`, tolerances, name maps (Model/State.lean)
   K : Mat Float
-  P : Mat Float          -- custom rate parameters
   conds : Array (Conditions Float) := #[]
   sc : Scratch Float
-  atol : Array Float
-  rtol : Float
   deriving Inhabited
+
+/-- outcome string of a setter modelled in `Model/State.lean` -/
+def setterOut (r : Except Err (MState Float)) : Option (MState Float) × String :=
+  match r with
+  | .ok sm => (some sm, "ok")
+  | .error e => (none, errStr e)
+
+/-- `k` entries `name n v₁ … vₙ` -/
+def kvsP (k : Nat) : P (List (String × List Float)) :=
+  many k do let name ← tok; let n ← nat; let vs ← flts n; pure (name, vs)
 
 def histCase : P String := do
   let integ ← nat; let L ← nat; let csc ← boolT; let kind := luKindOf (← nat)
@@ -476,10 +484,13 @@ def histCase : P String := do
   | .ok pr =>
     let stages := if integ == 0 then rosP.stages else 1
     let stages2 := if integ2 == 0 then rosP2.stages else 1
-    let fresh : HState := { Y := Array.replicate ncell (Array.replicate ns 0.0), K := Array.replicate ncell (Array.replicate nrx 0.0),
-                            P := Array.replicate ncell (Array.replicate nrx 0.0),
+    let sm0 : MState Float :=
+      { varMap := m, parMap := (List.range nrx).foldl (fun mm i => nmInsert mm s!"r{i}" i) [], nVars := ns, nPars := nrx,
+        vars := Array.replicate ncell (Array.replicate ns 0.0), pars := Array.replicate ncell (Array.replicate nrx 0.0),
+        atol := Array.replicate ns 1.0e-3, rtol := 1.0e-6 }
+    let fresh : HState := { sm := sm0, K := Array.replicate ncell (Array.replicate nrx 0.0),
                             conds := Array.replicate ncell { temperature := 0.0, pressure := 0.0, airDensity := 0.0 },
-                            sc := freshScratch pr.cfg ncell stages 0.0, atol := Array.replicate ns 1.0e-3, rtol := 1.0e-6 }
+                            sc := freshScratch pr.cfg ncell stages 0.0 }
     let mut store : Array (Option HState) := Array.replicate 8 none
     let mut outs : List String := []
     for _ in [0:nops] do
@@ -495,8 +506,8 @@ def histCase : P String := do
         let s ← nat; let i ← nat; let vals ← flts ncell
         match store.getD s none with
         | some st =>
-          let Y := st.Y.mapIdx fun c row => wr row i (vals.getD c 0.0)
-          store := store.setIfInBounds s (some { st with Y }); outs := outs ++ ["ok"]
+          let (r, out) := setterOut (st.sm.setConcentration s!"s{i}" vals)
+          store := store.setIfInBounds s (some { st with sm := r.getD st.sm }); outs := outs ++ [out]
         | none => outs := outs ++ ["nostate"]
       | "setk" =>
         let s ← nat; let vals ← flts (ncell * nrx)
@@ -514,8 +525,8 @@ def histCase : P String := do
         let s ← nat; let rr ← nat; let vals ← flts ncell
         match store.getD s none with
         | some st =>
-          let P := st.P.mapIdx fun c row => wr row rr (vals.getD c 0.0)
-          store := store.setIfInBounds s (some { st with P }); outs := outs ++ ["ok"]
+          let (r, out) := setterOut (st.sm.setParameter s!"r{rr}" vals)
+          store := store.setIfInBounds s (some { st with sm := r.getD st.sm }); outs := outs ++ [out]
         | none => outs := outs ++ ["nostate"]
       | "calc" =>
         let s ← nat
@@ -524,14 +535,16 @@ def histCase : P String := do
           -- every reaction of a history mechanism has a user-defined rate constant labelled `r<i>` with scaling factor 1
           let rprocs : List (RateProc Float) := mech.zipIdx.map fun (p, i) =>
             { kind := .userDefined s!"r{i}" 1.0, nParamReactants := (p.reactants.filter (·.param)).length }
-          let K := calculateRateConstants floatTOps 3.14159265358979323846 6.02214076e23 rprocs st.conds st.P
+          let K := calculateRateConstants floatTOps 3.14159265358979323846 6.02214076e23 rprocs st.conds st.sm.pars
           store := store.setIfInBounds s (some { st with K }); outs := outs ++ [showMat K]
         | none => outs := outs ++ ["nostate"]
       | "mvs_c" | "mvs_a" | "mvs_x" => let _ ← nat; outs := outs ++ ["ok"]
       | "settol" =>
         let s ← nat; let atl ← flts ns; let rt ← flt
         match store.getD s none with
-        | some st => store := store.setIfInBounds s (some { st with atol := atl.toArray, rtol := rt }); outs := outs ++ ["ok"]
+        | some st =>
+          store := store.setIfInBounds s (some { st with sm := (st.sm.setAbsoluteTolerances atl).setRelativeTolerance rt })
+          outs := outs ++ ["ok"]
         | none => outs := outs ++ ["nostate"]
       | "garbage" =>
         let s ← nat; let g ← flt
@@ -543,16 +556,61 @@ def histCase : P String := do
         match store.getD s none with
         | some st =>
           let (ig, rp, bp) := if st.owner == 0 then (integ, rosP, beP) else (integ2, rosP2, beP2)
-          let res := if ig == 0 then rosSolve floatOps floatConsts pr.cfg rp st.K st.atol st.rtol dt st.Y st.sc 200000
-                     else beSolve (α := Float) floatOps pr.cfg bp st.K st.atol st.rtol dt st.Y st.sc 200000
+          let res := if ig == 0 then rosSolve floatOps floatConsts pr.cfg rp st.K st.sm.atol st.sm.rtol dt st.sm.vars st.sc 200000
+                     else beSolve (α := Float) floatOps pr.cfg bp st.K st.sm.atol st.sm.rtol dt st.sm.vars st.sc 200000
           let Yf := clampNonNeg floatOps res.Y
-          store := store.setIfInBounds s (some { st with Y := Yf, sc := res.sc })
+          store := store.setIfInBounds s (some { st with sm := { st.sm with vars := Yf }, sc := res.sc })
           outs := outs ++ [s!"{statusStr res.status} {showF res.finalTime} {showStats res.stats} {showMat Yf}"]
         | none => outs := outs ++ ["nostate"]
       | "dump" =>
         let s ← nat
         match store.getD s none with
-        | some st => outs := outs ++ [showMat st.Y]
+        | some st => outs := outs ++ [showMat st.sm.vars]
+        | none => outs := outs ++ ["nostate"]
+      -- the setters of State with arbitrary arguments, through the model of state.inl (Model/State.lean)
+      | "xsetc" | "xsetp" =>
+        let s ← nat; let name ← tok; let n ← nat; let vals ← flts n
+        match store.getD s none with
+        | some st =>
+          let (r, out) := setterOut (if op == "xsetc" then st.sm.setConcentration name vals else st.sm.setParameter name vals)
+          store := store.setIfInBounds s (some { st with sm := r.getD st.sm }); outs := outs ++ [out]
+        | none => outs := outs ++ ["nostate"]
+      | "xsetc1" | "xsetp1" =>
+        let s ← nat; let name ← tok; let v ← flt
+        match store.getD s none with
+        | some st =>
+          let (r, out) := setterOut (if op == "xsetc1" then st.sm.setConcentrationScalar name v else st.sm.setParameterScalar name v)
+          store := store.setIfInBounds s (some { st with sm := r.getD st.sm }); outs := outs ++ [out]
+        | none => outs := outs ++ ["nostate"]
+      | "xsetcs" | "xsetps" | "xsetcs_law" | "xsetps_law" =>
+        let s ← nat; let k ← nat; let kvs ← kvsP k
+        match store.getD s none with
+        | some st =>
+          let (sm, e) := if op.startsWith "xsetcs" then st.sm.setConcentrations kvs else st.sm.setParameters kvs
+          store := store.setIfInBounds s (some { st with sm })
+          -- the `_law` variants report whether the real object obeys the prefix law (theorem C20_bulk_prefix)
+          outs := outs ++ [if op.endsWith "_law" then "law ok" else match e with | none => "ok" | some e => errStr e]
+        | none => outs := outs ++ ["nostate"]
+      | "xunsafep" =>
+        let s ← nat; let nrows ← nat
+        let rows ← many nrows do let n ← nat; flts n
+        match store.getD s none with
+        | some st =>
+          let (sm, e) := st.sm.unsafelySetParameters rows
+          store := store.setIfInBounds s (some { st with sm })
+          outs := outs ++ [match e with | none => "ok" | some e => errStr e]
+        | none => outs := outs ++ ["nostate"]
+      | "xsettol" =>
+        let s ← nat; let n ← nat; let atl ← flts n; let rt ← flt
+        match store.getD s none with
+        | some st =>
+          store := store.setIfInBounds s (some { st with sm := (st.sm.setAbsoluteTolerances atl).setRelativeTolerance rt })
+          outs := outs ++ ["ok"]
+        | none => outs := outs ++ ["nostate"]
+      | "dumpv" =>
+        let s ← nat
+        match store.getD s none with
+        | some st => outs := outs ++ [s!"dumpv v={showMat st.sm.vars} p={showMat st.sm.pars} a={showFs st.sm.atol.toList} r={showF st.sm.rtol}"]
         | none => outs := outs ++ ["nostate"]
       | "cpc" | "cpa" =>
         let s ← nat; let d ← nat
